@@ -9,16 +9,16 @@ func init() {
 		Scope: Scope{Include: []string{"pkg/mpc/", "pkg/network/mpc.go", "pkg/base/errors.go"}, Exclude: []string{"pkg/mpc/sharing/"}}})
 	register(&propSpec{ID: "C05", SeqScope: Scope{Include: []string{"pkg/mpc/sharing/vss/", "pkg/mpc/base.go"}}, MinSeq: 20, MinFuncs: 20, Check: checkC05,
 		Scope: Scope{Include: []string{"pkg/mpc/sharing/vss/", "pkg/base/mat/module_valued.go", "pkg/mpc/base.go"}}})
-	register(&propSpec{ID: "C06", StoreScope: Scope{Include: []string{"pkg/mpc/redistribute/", "pkg/mpc/zero/hjky/"}}, MinStores: 3, MinFuncs: 8, Check: checkC06,
+	register(&propSpec{ID: "C06", SeqScope: Scope{Include: []string{"pkg/mpc/redistribute/", "pkg/mpc/zero/hjky/"}}, MinSeq: 8, StoreScope: Scope{Include: []string{"pkg/mpc/redistribute/", "pkg/mpc/zero/hjky/"}}, MinStores: 3, MinFuncs: 8, Check: checkC06,
 		Scope: Scope{Include: []string{"pkg/mpc/redistribute/", "pkg/mpc/zero/hjky/"}}})
 	register(&propSpec{ID: "C07", MinFuncs: 150, MinFrame: 30, Check: checkC07,
 		Scope:      Scope{Include: []string{"pkg/mpc/", "pkg/ot/"}, Exclude: []string{"pkg/mpc/sharing/"}},
 		FrameScope: Scope{Include: []string{"pkg/mpc/", "pkg/ot/"}, Exclude: []string{"pkg/mpc/sharing/"}}})
 	register(&propSpec{ID: "C08", SeqScope: Scope{Include: []string{"pkg/proofs/"}}, MinSeq: 100, StoreScope: Scope{Include: []string{"pkg/proofs/"}}, MinStores: 3, FrameScope: Scope{Include: []string{"pkg/proofs/"}}, MinFrame: 8, MinFuncs: 100, Check: checkC08,
 		Scope: Scope{Include: []string{"pkg/proofs/"}}})
-	register(&propSpec{ID: "C09", StoreScope: Scope{Include: []string{"pkg/ot/", "pkg/mpc/rvole/"}}, MinStores: 5, FrameScope: Scope{Include: []string{"pkg/ot/", "pkg/mpc/rvole/"}}, MinFrame: 4, MinFuncs: 30, Check: checkC09,
+	register(&propSpec{ID: "C09", SeqScope: Scope{Include: []string{"pkg/ot/", "pkg/mpc/rvole/"}}, MinSeq: 30, StoreScope: Scope{Include: []string{"pkg/ot/", "pkg/mpc/rvole/"}}, MinStores: 5, FrameScope: Scope{Include: []string{"pkg/ot/", "pkg/mpc/rvole/"}}, MinFrame: 4, MinFuncs: 30, Check: checkC09,
 		Scope: Scope{Include: []string{"pkg/ot/", "pkg/mpc/rvole/"}}})
-	register(&propSpec{ID: "C10", StoreScope: Scope{Include: []string{"pkg/mpc/session/"}}, MinStores: 3, FrameScope: Scope{Include: []string{"pkg/mpc/session/", "pkg/mpc/zero/przs/", "pkg/commitments/hashcom/"}}, MinFrame: 3, MinFuncs: 10, Check: checkC10,
+	register(&propSpec{ID: "C10", SeqScope: Scope{Include: []string{"pkg/mpc/session/", "pkg/mpc/zero/przs/", "pkg/commitments/hashcom/"}}, MinSeq: 10, StoreScope: Scope{Include: []string{"pkg/mpc/session/"}}, MinStores: 3, FrameScope: Scope{Include: []string{"pkg/mpc/session/", "pkg/mpc/zero/przs/", "pkg/commitments/hashcom/"}}, MinFrame: 3, MinFuncs: 10, Check: checkC10,
 		Scope: Scope{Include: []string{"pkg/mpc/session/", "pkg/mpc/zero/przs/", "pkg/commitments/hashcom/"}}})
 	register(&propSpec{ID: "C11", SeqScope: Scope{Include: []string{"pkg/"}, KeyRe: regexp.MustCompile(`\.Run$|^pkg/network/exchange\.|^pkg/network/echo\.|^pkg/network\.(Send|Receive)`)}, MinSeq: 12, StoreScope: Scope{Include: []string{"pkg/network/"}}, MinStores: 1, MinFuncs: 20, Check: checkC11,
 		Scope: Scope{Include: []string{"pkg/network/"}}})
@@ -30,7 +30,7 @@ func init() {
 		Scope: Scope{Include: []string{"pkg/signatures/"}}})
 	register(&propSpec{ID: "C16", SeqScope: Scope{Include: []string{"pkg/encryption/"}}, MinSeq: 40, MinFuncs: 20, Check: checkC16,
 		Scope: Scope{Include: []string{"pkg/encryption/", "pkg/base/nt/znstar/"}}})
-	register(&propSpec{ID: "C17", MinFuncs: 40, Check: checkC17,
+	register(&propSpec{ID: "C17", SeqScope: Scope{Include: []string{"pkg/base/nt/"}}, MinSeq: 100, MinFuncs: 40, Check: checkC17,
 		Scope: Scope{Include: []string{"pkg/base/nt/"}}})
 	register(&propSpec{ID: "C18", SeqScope: Scope{Include: []string{"pkg/commitments/"}}, MinSeq: 40, FrameScope: Scope{Include: []string{"pkg/commitments/"}}, MinFrame: 2, MinFuncs: 20, Check: checkC18,
 		Scope: Scope{Include: []string{"pkg/commitments/", "pkg/encryption/", "pkg/base/nt/znstar/"}}})
